@@ -227,6 +227,14 @@ def build_shared_mps_qtz_map(mod: fx.GraphModule,
         sq_w = None
         # This ensures to work at every iteration with a 'fresh' dict
         curr_qinfo = copy.deepcopy(qinfo)
+        # the channels of a network input are all alive: layers of the component that holds one
+        # (a depthwise conv on the input, a conv summed with the input) cannot prune theirs, exactly
+        # as in a component that holds a network output
+        if w_search_type == MPSType.PER_CHANNEL and any(n.op == 'placeholder' for n in c):
+            for key in curr_qinfo:
+                if isinstance(curr_qinfo[key], dict) and 'weight' in curr_qinfo[key]:
+                    curr_qinfo[key]['weight']['search_precision'] = tuple(
+                        p for p in curr_qinfo[key]['weight']['search_precision'] if p != 0)
         for n in c:
             # identify a node which can give us the number of features with 100% certainty
             # nodes such as flatten/squeeze etc make this necessary
